@@ -185,11 +185,58 @@ Definition mon_C02 (b : bscen) (o : bobs) : bool := let s := breplay b o in ok02
 (* C09: retrying acquisitions never wait while holding, and the run completes *)
 Definition mon_C09 (b : bscen) (o : bobs) : bool := ok09 (breplay b o) && is_done o.
 (* the interleaved parts of C03 / C05 *)
-Definition mon_C03b (b : bscen) (o : bobs) : bool := ok03 (breplay b o).
+(* a thread found waiting for a lock it holds itself: it began to acquire while a hold it had obtained earlier was still
+   live (C03), and that hold can no longer be released by anybody (C05) *)
+Definition no_selfwait (o : bobs) : bool := negb (bstatus_eqb (bo_status o) BSelfWait).
+Definition mon_C03b (b : bscen) (o : bobs) : bool := ok03 (breplay b o) && no_selfwait o.
 Definition mon_C04b (b : bscen) (o : bobs) : bool := ok04 (breplay b o).
 Definition mon_C05b (b : bscen) (o : bobs) : bool :=
   let s := breplay b o in
-  ok05 s && ok03 s && (if is_done o then list_eqb rawst_sim (bo_holds o) (pre_holds (bs_sc b)) else true).
+  ok05 s && ok03 s && no_selfwait o && (if is_done o then list_eqb rawst_sim (bo_holds o) (pre_holds (bs_sc b)) else true).
+
+(* ---------------------------------------------------------------- C08 on interleaved executions
+   The order in which a blocking acquisition of a sorting collection (boxed / ref, possibly inside Poisonable) took the
+   locks it holds at the moment it hands out its guard / enters its closure: for any two such acquisitions the locks they
+   have in common were taken in the same relative order — also when members were contended on the way. *)
+Fixpoint is_sorting (s : shape) : bool :=
+  match s with SBoxed _ | SRefC _ => true | SPoison _ s' => is_sorting s' | _ => false end.
+
+Record b08 := mkb08 { held08 : tid -> list lock; calls08 : tid -> nat; snaps08 : list (list lock) }.
+
+Definition step08 (b : bscen) (s : b08) (e : bev) : b08 :=
+  let sc := bs_sc b in
+  let cur := fun t => nth_error (nth t (bs_progs b) []) (calls08 s t) in
+  let sorting_guard := fun t => match cur t with
+                                | Some (AAcquire c _ FGuard) => is_sorting (shape_of sc c)
+                                | _ => false
+                                end in
+  let sorting_scoped := fun t => match cur t with
+                                 | Some (AAcquire c _ (FScoped _ _)) => is_sorting (shape_of sc c)
+                                 | _ => false
+                                 end in
+  match e with
+  | BE (ERaw t k l r) =>
+      match k, r with
+      | OLock, RUnit | OLockSh, RUnit | OTry, RBool true | OTrySh, RBool true =>
+          mkb08 (upd (held08 s) t (held08 s t ++ [l])) (calls08 s) (snaps08 s)
+      | OUnlock, RUnit | OUnlockSh, RUnit =>
+          mkb08 (upd (held08 s) t (remove1 l (held08 s t))) (calls08 s) (snaps08 s)
+      | _, _ => s
+      end
+  | BE (EMark t _) =>
+      if sorting_scoped t then mkb08 (held08 s) (calls08 s) (held08 s t :: snaps08 s) else s
+  | BRet t r _ =>
+      let snap := match r with ROk | RPoisoned => sorting_guard t | _ => false end in
+      mkb08 (held08 s) (upd (calls08 s) t (S (calls08 s t))) (if snap then held08 s t :: snaps08 s else snaps08 s)
+  | _ => s
+  end.
+
+Definition same_order (a b : list lock) : bool :=
+  list_eqb Nat.eqb (filter (fun l => memb l b) a) (filter (fun l => memb l a) b).
+
+Definition mon_C08b (b : bscen) (o : bobs) : bool :=
+  let s := fold_left (step08 b) (bo_evs o) (mkb08 (fun _ => []) (fun _ => 0) []) in
+  forallb (fun a => forallb (same_order a) (snaps08 s)) (snaps08 s).
 
 Definition bev_is_raw (e : bev) : bool := match e with BE (ERaw _ _ _ _) => true | BRet _ _ _ => true | _ => false end.
 Definition bev_is_data (e : bev) : bool := match e with BE (EData _ _ _ _ _) | BE (EMark _ _) => true | BE (ERaw _ _ _ _) => true | _ => false end.
@@ -216,6 +263,7 @@ Definition bcheck_mon (mon : bscen -> bobs -> bool) (b : bscen) (sched : list ti
 Definition check_C03b := bcheck_mon mon_C03b.
 Definition check_C04b := bcheck_mon mon_C04b.
 Definition check_C05b := bcheck_mon mon_C05b.
+Definition check_C08b := bcheck_mon mon_C08b.
 
 (* ---------------------------------------------------------------- lock-order graph of an execution (C01) *)
 (* Every blocking acquisition made (or waited for) while holding other locks adds the edges held -> wanted.  The
